@@ -285,10 +285,43 @@ fn ctor<T: Sub + FromIterator<Bit>>(op: &str, a: &[&str]) -> String {
         "read" => {
             let bytes = parse_bytes(a[0]);
             let mut r: &[u8] = &bytes[..];
-            match T::read(&mut r, a[1].parse().unwrap(), endian(a[2])) {
+            let whole = match T::read(&mut r, a[1].parse().unwrap(), endian(a[2])) {
                 Ok(v) => format!("ok {} {}", v.dump(), bytes_token(r)),
                 Err(e) => format!("err {:?}", e.kind()),
+            };
+            // The `Read` contract allows short counts and `Interrupted`: the same bytes offered through readers that hand out
+            // 1 byte per call, or 3 bytes per call after an initial `Interrupted`, must give the same vector and leave the same rest.
+            struct Dribble<'a> {
+                data: &'a [u8],
+                step: usize,
+                interrupt: bool,
             }
+            impl<'a> std::io::Read for Dribble<'a> {
+                fn read(&mut self, buf: &mut [u8]) -> std::io::Result<usize> {
+                    if self.interrupt {
+                        self.interrupt = false;
+                        return Err(std::io::Error::from(std::io::ErrorKind::Interrupted));
+                    }
+                    let n = buf.len().min(self.step).min(self.data.len());
+                    buf[..n].copy_from_slice(&self.data[..n]);
+                    self.data = &self.data[n..];
+                    Ok(n)
+                }
+            }
+            let mut out = whole.clone();
+            for (step, interrupt) in [(1usize, false), (3usize, true)] {
+                let mut d = Dribble { data: &bytes[..], step, interrupt };
+                let part = match T::read(&mut d, a[1].parse().unwrap(), endian(a[2])) {
+                    Ok(v) => format!("ok {} {}", v.dump(), bytes_token(d.data)),
+                    Err(e) => format!("err {:?}", e.kind()),
+                };
+                // on a short input `read_exact` leaves the amount consumed unspecified: only the verdict is compared there
+                if part != whole {
+                    out = format!("{} || reader(step={},interrupted={}): {}", whole, step, interrupt, part);
+                    break;
+                }
+            }
+            out
         }
         "collect" => {
             let bits = parse_bits(a[0]);
@@ -751,7 +784,7 @@ where
     for<'a> <T as TryFrom<&'a Bvf<u16, 5>>>::Error: std::fmt::Debug,
     T: for<'a> TryFrom<&'a Bvf<u32, 1>> + for<'a> TryFrom<&'a Bvf<u32, 3>> + for<'a> TryFrom<&'a Bvf<u64, 1>>,
     T: for<'a> TryFrom<&'a Bvf<u64, 2>> + for<'a> TryFrom<&'a Bvf<u64, 5>> + for<'a> TryFrom<&'a Bvf<u128, 1>>,
-    T: for<'a> TryFrom<&'a Bvf<u128, 3>> + for<'a> TryFrom<&'a Bvf<usize, 3>>,
+    T: for<'a> TryFrom<&'a Bvf<u128, 3>> + for<'a> TryFrom<&'a Bvf<usize, 5>>,
     for<'a> <T as TryFrom<&'a Bvd>>::Error: std::fmt::Debug,
     for<'a> <T as TryFrom<&'a Bv>>::Error: std::fmt::Debug,
     for<'a> <T as TryFrom<&'a Bvf<u8, 1>>>::Error: std::fmt::Debug,
@@ -764,7 +797,7 @@ where
     for<'a> <T as TryFrom<&'a Bvf<u64, 5>>>::Error: std::fmt::Debug,
     for<'a> <T as TryFrom<&'a Bvf<u128, 1>>>::Error: std::fmt::Debug,
     for<'a> <T as TryFrom<&'a Bvf<u128, 3>>>::Error: std::fmt::Debug,
-    for<'a> <T as TryFrom<&'a Bvf<usize, 3>>>::Error: std::fmt::Debug,
+    for<'a> <T as TryFrom<&'a Bvf<usize, 5>>>::Error: std::fmt::Debug,
 {
     for_types!(d2!(rtag, with_arg, T, (op, a)))
 }
@@ -778,7 +811,7 @@ where
     L: PartialEq<Bvf<u32, 3>> + PartialOrd<Bvf<u32, 3>> + PartialEq<Bvf<u64, 1>> + PartialOrd<Bvf<u64, 1>>,
     L: PartialEq<Bvf<u64, 2>> + PartialOrd<Bvf<u64, 2>> + PartialEq<Bvf<u64, 5>> + PartialOrd<Bvf<u64, 5>>,
     L: PartialEq<Bvf<u128, 1>> + PartialOrd<Bvf<u128, 1>> + PartialEq<Bvf<u128, 3>> + PartialOrd<Bvf<u128, 3>>,
-    L: PartialEq<Bvf<usize, 3>> + PartialOrd<Bvf<usize, 3>>,
+    L: PartialEq<Bvf<usize, 5>> + PartialOrd<Bvf<usize, 5>>,
 {
     for_types!(d2!(rtag, cmpall, L, (a)))
 }
